@@ -158,6 +158,7 @@ def cmd_run(argv):
                     "seed": seed,
                     "plan": best,
                     "plan_unshrunk": plan if best is not plan else None,
+                    "worker": {"start": start, "count": count, "stride": stride, "offset": offset},
                     "violation_unshrunk": v,
                     "violation": bv,
                     "trace_digest": r2.trace_digest,
@@ -193,6 +194,30 @@ def cmd_replay(argv):
     if "--known" in argv:
         world.known = load_known(world.property_id)
     world.warmup(replay.get("config", "default"))
+    if replay.get("history"):
+        # process-history replay: re-generate and execute, in order, the sessions the
+        # worker had run in the same interpreter before the violating one
+        h = replay["history"]
+        res = None
+        for sd in h["seeds"]:
+            plan = world.gen_plan(sd, h["tier"], h["config"])
+            try:
+                res = world.execute(plan)
+            except Exception:
+                res = None
+        replay["plan"] = plan
+        v = res.violation if res is not None else None
+        out = {"violation": v, "trace_digest": res.trace_digest if res else None,
+               "expected": replay.get("violation"), "history_sessions": len(h["seeds"])}
+        print("REPLAY-RESULT " + json.dumps(out, sort_keys=True))
+        if v is None:
+            print("replay: no violation")
+            return 0
+        print("VIOLATION property=%s replay=%s (process-history replay: %d sessions in one interpreter)"
+              % (replay["property"], path, len(h["seeds"])))
+        print("  invariant=%s site=%s step=%s" % (v["invariant"], v["site"], v["step"]))
+        print("  detail=%s" % (v["detail"],))
+        return 1
     if "--unshrunk" in argv and replay.get("plan_unshrunk") is not None:
         replay["plan"] = replay["plan_unshrunk"]
         replay["violation"] = replay.get("violation_unshrunk")
